@@ -30,7 +30,7 @@ type verifReaderH struct {
 func VerifH_C11_dircacheHistory() {
 	steps, nkeys, fadv := 4, 2, false
 	if vr.Tier() > 0 {
-		steps, nkeys, fadv = 5, 3, vr.Bool("fadv")
+		steps, nkeys, fadv = 3, 2, vr.Bool("fadv") // plus Direct() and zero-length values per operation
 	}
 	root := "/cache"
 	if vr.Native() {
